@@ -199,8 +199,7 @@ CONFIG["C10"] = {
     ],
     "assumptions": ["parameter names are brace-free and distinct (they are Go map keys); patterns are byte strings",
                     "Go's map iteration order is not observable: each P case is rebuilt 4 times and must give one answer"],
-    "partial": ["T4 (query precedence caller > pattern > base path) is decided by the Spec on every Q case but has no Lean theorem yet",
-                "the model's urlPath is the string handed to http.NewRequest; what net/url makes of it afterwards is stdlib (see known finding F10a)"],
+    "partial": ["the model's urlPath is the string handed to http.NewRequest; what net/url makes of it afterwards is stdlib (see known finding F10a)"],
 }
 
 CONFIG["C01"] = {
